@@ -135,7 +135,11 @@ def _scan_order(ctx, ck, fn, loop, rules, infos, pats) -> None:
     from ..axinterp import Env, Interp, Obj, Raised, Undecided
 
     world, table = ctx.world, ctx.table
-    fors = [n for n in ast.walk(loop) if isinstance(n, ast.For) and isinstance(n.target, ast.Name)
+    from .c04 import _self_closure
+
+    alg = table.get(f'{RULES}.AlgebraicReductionRule')
+    scopes = [loop] + list(_self_closure(table, alg, fn).values())
+    fors = [n for scope in scopes for n in ast.walk(scope) if isinstance(n, ast.For) and isinstance(n.target, ast.Name)
             and any(isinstance(c, ast.Call) and isinstance(c.func, ast.Attribute) and isinstance(c.func.value, ast.Name) and c.func.value.id == n.target.id and c.func.attr in ('check', 'apply')
                     for c in ast.walk(n))]
     if len(fors) != 1:
